@@ -22,4 +22,22 @@ CHECKS = {
   "text": "Params.tla states the contract of set/get/bounds/reset/stage rules over a bounds table written from the documentation constants of zstd.h; ParamsModel.tla is checked exhaustively (8 representative parameters x 10 boundary values x stages x resets, histories of 3 calls). The code is bound to it by executing the complete (parameter x boundary value x stage x object) grid for all 38 compression and 7 decompression parameters on CCtx, CCtx_params and DCtx, TLC-generated histories, and sticky-parameter frame sequences (headers parsed by an independent reader), each call logged with the full read-back snapshot and validated step by step by TLC against ParamsTrace.tla.",
   "note": "Trusted: TLC; the bounds table in Params.tla (64-bit constants of lib/zstd.h); harness/paramdrv.c's independent frame-header reader. Frames are produced only under cheap parameter sets; extreme values are set/read back but not compressed with. Client rule honoured: no parameter change after a dictionary was loaded (zstd.h).",
  },
+ "C02": {
+  "level": "model_checking",
+  "technique": "TLA+ design model of the compression/decompression stream machines (Stream.tla) checked exhaustively by TLC for every segmentation; every real streaming call recorded and validated by TLC against the contract specification StreamTrace.tla",
+  "text": "Stream.tla models ZSTD_compressStream_generic and ZSTD_decompressStream (load/compress/flush, read/decode/flush, hostage byte) on byte counts; TLC explores every interleaving of caller slice sizes, output capacities and directives for small frames and checks decoder soundness, exact completion, flush decodability and progress. The code is bound by call histories (seeded random over the boundary sizes of the block/window/header, all three directives, legacy and ZBUFF entry points, moving input buffers, several frames and skippable frames, ST and MT): each ZSTD_compressStream2 / ZSTD_decompressStream call is one trace line (offered sizes, pos deltas, return value) and TLC evaluates the contract on every line: bytes match, completion reported exactly at frame ends with output flushed, nothing regenerated from unread bytes, emitted stream = complete frames.",
+  "note": "Trusted: TLC; harness/streamdrv.c (byte comparison, independent frame/block-header walker); ASan/UBSan on explored histories. Histories follow the documented client rules. Bit-level entropy fidelity is observed (round trip), not modelled. Sizes: sources up to 200 KB (quick) / 2.5 MB (MT, thorough), buffers down to 1 byte.",
+ },
+ "C09": {
+  "level": "model_checking",
+  "technique": "Stream.tla invariants NeverDoneOnPrefix/DoneExact by TLC; every cut point / checksum bit / pledge scenario executed on the library and validated by TLC against StreamTrace.tla",
+  "text": "Model: in Stream.tla the decoder reports completion only at the end of the frame with output flushed, for every cut of the compressed stream between calls. Code: for frames produced under random parameters and histories, every proper prefix (all k for streams <= 600/3000 bytes, section boundaries +-1 otherwise) is decoded single-call and streaming; every bit of the stored checksum is flipped (also after validation was disabled and re-enabled by each parameter-reset kind); trailing garbage; pledged-size scenarios (exact / fewer / more bytes, with and without content size in the header, ST and MT). Each observation is a trace line validated by TLC: cut => error and never 0; flipped checksum => error; pledge mismatch => error by end of frame.",
+  "note": "Trusted: TLC; harness/streamdrv.c (byte comparison, independent frame/block-header walker); ASan/UBSan on explored histories. Histories follow the documented client rules. Bit-level entropy fidelity is observed (round trip), not modelled. Sizes: sources up to 200 KB (quick) / 2.5 MB (MT, thorough), buffers down to 1 byte.",
+ },
+ "C10": {
+  "level": "model_checking",
+  "technique": "Stream.tla progress invariants + liveness under fair callers by TLC; per-call progress, flush decodability and hint discipline validated by TLC on recorded histories (ST and MT)",
+  "text": "Model: CProgress/DProgress/FlushDecodable hold in every state of Stream.tla and (thorough) every finite stream finishes under strongly fair callers. Code: every recorded call is checked for progress; at every flush that reported completion an independent decoder run to quiescence must regenerate exactly the bytes consumed; a hint-following decode must consume exactly each frame and never ask beyond it; MT + LDM histories with flushed pieces straddling the job size make the round buffer wrap; a call that does not return within 60 s is a blocked call (re-run to confirm).",
+  "note": "Trusted: TLC; harness/streamdrv.c (byte comparison, independent frame/block-header walker); ASan/UBSan on explored histories. Histories follow the documented client rules. Bit-level entropy fidelity is observed (round trip), not modelled. Sizes: sources up to 200 KB (quick) / 2.5 MB (MT, thorough), buffers down to 1 byte.",
+ },
 }
